@@ -33,6 +33,26 @@ def _expand(payload, sub):
     npre = len(sc['steps'])
     # suffix: first a few steps biased to discarding, then anything
     PL.gen_pipeline(rng, None, payload['ns'], tags=(DISCARD_TAGS | {'user'}) if rng.random() < 0.7 else None, exclude=OBS_KINDS, stats=stats, sc=sc, g=g)
+    if rng.random() < 0.12:
+        # motif: an inner join whose source turns out empty at run time (filtered away just before): the join has nothing to
+        # match, and still has to pull the target through everything upstream of it
+        try:
+            dmid = ST.D(PL.describe({'tables': sc['tables'], 'steps': sc['steps'][:npre], 'source_kinds': sc.get('source_kinds')}, {'calls': {}}))
+            j = ST.gen_join(rng, dmid, g)
+            if j and ('_id', 'integer') in dmid.get(j['source'])['fields']:
+                j['mode'] = 'inner'
+                extra = [{'step': 'filter_rows', 'cond': 'none', 'resources': j['source']}, j]
+                trial = {'tables': sc['tables'], 'steps': sc['steps'][:npre] + extra + sc['steps'][npre:], 'source_kinds': sc.get('source_kinds')}
+                try:
+                    PL.describe(trial, {'calls': {}})
+                    sc['steps'] = trial['steps']
+                except Exception:  # noqa  - the rest of the suffix no longer fits: keep the motif alone
+                    trial['steps'] = sc['steps'][:npre] + extra
+                    PL.describe(trial, {'calls': {}})
+                    sc['steps'] = trial['steps']
+                stats['motif:inner-join-on-emptied-source'] = 1
+        except Exception:  # noqa
+            pass
     if rng.random() < payload.get('truncate_p', 0.05):
         # known finding C05-consumer-stops-early: a downstream user step that stops pulling a resource early
         sc['steps'].insert(rng.randrange(npre, len(sc['steps']) + 1), ST.gen_truncate(rng, None, g))
@@ -173,7 +193,7 @@ class C05(Prop):
     ASSUMPTIONS = ['schemas are compared as (field names, types, order, primary key): serialisation hints that file dumpers add by design (format, decimalChar, ...) are not part of the statement',
                    'dumped csv/json files are decoded with the stdlib only and compared by resource list, row count and provenance-id sequence (typed round-trip is C03)']
     REAL_VS_STUB = {'real': ['all dataflows code'], 'stub': ['printer: header_print/table_print callbacks and a recording wrapper around the module-global tabulate']}
-    PROBES = ['suffix-deletes-resource', 'suffix-filters-rows', 'suffix-joins', 'suffix-concatenates', 'observer-first', 'observer-last', 'empty-resource-at-observer', 'printer-with-selection', 'second-dumper-downstream', 'suffix-stops-pulling-early', 'run-fails-downstream-of-finalizer'] + ['obs:' + o for o in OBS_KINDS]
+    PROBES = ['suffix-deletes-resource', 'suffix-filters-rows', 'suffix-joins', 'suffix-concatenates', 'observer-first', 'observer-last', 'empty-resource-at-observer', 'printer-with-selection', 'second-dumper-downstream', 'suffix-stops-pulling-early', 'run-fails-downstream-of-finalizer', 'suffix-inner-join-on-emptied-source'] + ['obs:' + o for o in OBS_KINDS]
     TIERS = {'quick': dict(runs=900, wall=100, run_wall=300),
              'thorough': dict(runs=25000, wall=1700, run_wall=600)}
     SHRINK_FROZEN = ('fields', 'gen_stats')
@@ -208,6 +228,8 @@ class C05(Prop):
             k = {'delete_resource': 'suffix-deletes-resource', 'filter_rows': 'suffix-filters-rows', 'join': 'suffix-joins', 'concatenate': 'suffix-concatenates'}.get(sp['step'])
             if k:
                 ctx.probe(k)
+        if (sc.get('gen_stats') or {}).get('motif:inner-join-on-emptied-source'):
+            ctx.probe('suffix-inner-join-on-emptied-source')
         if any(sp['step'] in ('dump_to_path', 'dump_to_zip') for sp in sc['suffix']):
             ctx.probe('second-dumper-downstream')
         if any(sp['step'] == 'truncate' for sp in sc['suffix']):
